@@ -62,3 +62,64 @@ example (s : St) (d : DrawOp) :
       (List.range row.length).zipWith (fun (x : Nat) c => oracleCell s d (Int.ofNat x) (Int.ofNat y) c) row) s.spec := rfl
 
 end VaxisModel.Props.C01Ops
+
+namespace VaxisModel.Props.C01Ops
+open VaxisModel.Model.Window VaxisModel.Model.Render VaxisModel.Model.App VaxisModel.Spec.Display
+open VaxisModel.Lemmas.AppSys VaxisModel.Lemmas.App VaxisModel.Lemmas.AppSpec VaxisModel.Driver.C01Ops
+open VaxisModel.Lemmas.Window
+
+theorem buf_get (s : Screen) (x y : Nat) :
+    s.get (x : Int) (y : Int) = (s.buf[y]?).bind (·[x]?) := by
+  have hneg : ¬ ((x : Int) < 0 ∨ (y : Int) < 0) := by omega
+  simp only [Screen.get, hneg, if_false, Int.toNat_natCast]
+  cases s.buf[y]? <;> simp
+
+theorem draw_wf (lib : Lib) (rm : Bool) (v : Vx) (d : DrawOp) (h : v.scr.WF) : (draw lib rm v d).scr.WF ∧
+    (draw lib rm v d).scr.cols = v.scr.cols ∧ (draw lib rm v d).scr.rows = v.scr.rows := by
+  have hs := runDraws_scr lib rm [d] v
+  simp only [runDraws, List.foldl_cons, List.foldl_nil, List.flatMap_cons, List.flatMap_nil, List.append_nil] at hs
+  rw [hs]
+  exact ⟨applyPuts_wf _ _ h, (applyPuts_dims _ _).1, (applyPuts_dims _ _).2⟩
+
+/-- **The oracle's reference screen is the model's buffer, as lists**: if the driver's `spec` equals the
+    model's next-frame buffer (well formed) before a `d` line, it does afterwards.  Both start as
+    `resize`d buffers on `size` / `resize` lines, so along every run of the stream the screen the
+    real bytes are judged against is the screen `app_history_displays` is about. -/
+theorem oracle_screen_tracks_model (s : St) (d : DrawOp) (hwf : s.v.scr.WF) (heq : s.spec = s.v.scr.buf) :
+    specDraw s d = (draw s.lib s.rm s.v d).scr.buf := by
+  obtain ⟨hwf', hc', hr'⟩ := draw_wf s.lib s.rm s.v d hwf
+  obtain ⟨hc0, hr0, hlen, hrows⟩ := hwf
+  obtain ⟨_, _, hlen', hrows'⟩ := hwf'
+  apply List.ext_getElem?
+  intro y
+  simp only [specDraw, heq]
+  rw [VaxisModel.Lemmas.RenderRow.getElem?_zipRange]
+  by_cases hy : y < s.v.scr.buf.length
+  · have hy' : y < (draw s.lib s.rm s.v d).scr.buf.length := by rw [hlen', hr', ← hlen]; exact hy
+    rw [List.getElem?_eq_getElem hy', List.getElem?_eq_getElem hy]
+    simp only [Option.map_some, Option.some.injEq]
+    have hrow : (s.v.scr.buf[y]).length = s.v.scr.cols.toNat := hrows _ (List.getElem_mem hy)
+    have hrow' : ((draw s.lib s.rm s.v d).scr.buf[y]).length = s.v.scr.cols.toNat := by
+      rw [hrows' _ (List.getElem_mem hy'), hc']
+    apply List.ext_getElem?
+    intro x
+    rw [VaxisModel.Lemmas.RenderRow.getElem?_zipRange]
+    by_cases hx : x < s.v.scr.cols.toNat
+    · have hx0 : x < (s.v.scr.buf[y]).length := by omega
+      rw [List.getElem?_eq_getElem hx0]
+      simp only [Option.map_some]
+      have hget : s.v.scr.get (x : Int) (y : Int) = some (s.v.scr.buf[y][x]) := by
+        rw [buf_get, List.getElem?_eq_getElem hy]; simp [List.getElem?_eq_getElem hx0]
+      have := oracle_screen_is_model_screen s d (x : Int) (y : Int) _ hget
+      rw [buf_get, List.getElem?_eq_getElem hy'] at this
+      simp only [Option.bind_some] at this
+      rw [this]
+      rfl
+    · have h1 : (s.v.scr.buf[y]).length ≤ x := by omega
+      have h2 : ((draw s.lib s.rm s.v d).scr.buf[y]).length ≤ x := by omega
+      rw [List.getElem?_eq_none h1, List.getElem?_eq_none h2]; rfl
+  · have hy1 : s.v.scr.buf.length ≤ y := by omega
+    have hy2 : (draw s.lib s.rm s.v d).scr.buf.length ≤ y := by rw [hlen', hr', ← hlen]; exact hy1
+    rw [List.getElem?_eq_none hy1, List.getElem?_eq_none hy2]; rfl
+
+end VaxisModel.Props.C01Ops
